@@ -670,7 +670,16 @@ func RunW(s *Srv, sc *WScn) *WHist {
 			break
 		}
 	}
-	// ---- flush: a final heartbeat whose reply comes after every earlier frame
+	// re-requests travel through reissuePackChan, which is not ordered with msgChan: wait for them first
+	for end := time.Now().Add(2 * time.Second); time.Now().Before(end); time.Sleep(200 * time.Microsecond) {
+		r.mu.Lock()
+		ok := r.closed || r.nreisSeen >= r.nreisSent
+		r.mu.Unlock()
+		if ok {
+			break
+		}
+	}
+	// ---- flush: a final heartbeat whose reply comes after every earlier frame (msgChan is FIFO)
 	r.mu.Lock()
 	closed := r.closed
 	if !closed {
